@@ -33,9 +33,9 @@ BUDGET = {
     'thorough': dict(examples=2000, time_s=3300, shrink=True, shrink_cap_s=240),
 }
 
-SAMPLE_KINDS = ['ok_mef', 'ok_rfi', 'ok_float', 'ok_float2', 'missing', 'small', 'gf_neg', 'gf_big', 'gf_just_above', 'gf_just_below', 'bad_units', 'beads_failed',
+SAMPLE_KINDS = ['ok_mef', 'ok_rfi', 'ok_one', 'ok_float', 'ok_float2', 'missing', 'small', 'gf_neg', 'gf_big', 'gf_just_above', 'gf_just_below', 'bad_units', 'beads_failed',
                 'no_curve', 'other_instrument', 'other_amp', 'other_volt']
-HEALTHY = ('ok_mef', 'ok_rfi', 'ok_float', 'ok_float2')
+HEALTHY = ('ok_mef', 'ok_rfi', 'ok_one', 'ok_float', 'ok_float2')
 BEAD_KINDS = ['ok', 'missing', 'small', 'gf_neg', 'gf_big', 'unequal_mef']
 
 _FIX = {}
@@ -55,7 +55,7 @@ def fixture(seed):
         'cells_a.fcs': dict(kind='cells', instrument='I1', seed=seed + 1, n=600, datatype='I'),
         'cells_b.fcs': dict(kind='cells', instrument='I1', seed=seed + 2, n=520, datatype='I'),
         'cells_f.fcs': dict(kind='cells', instrument='I1', seed=2 * seed + 3, n=560, datatype='F'),
-        'cells_f2.fcs': dict(kind='cells', instrument='I1', seed=2 * seed + 41, n=610, datatype='F'),
+        'cells_f2.fcs': dict(kind='cells', instrument='I1', seed=4 * seed + 41, n=610, datatype='F'),   # bit 1 clear: non-positive FL2 values -> a warning note
         'cells_small.fcs': dict(kind='cells', instrument='I1', seed=seed + 4, n=380, datatype='I'),
         'cells_volt.fcs': dict(kind='cells', instrument='I1', seed=seed + 5, n=500, datatype='I', volt=[500, 550, 999, 650]),
         'cells_lin.fcs': dict(kind='cells', instrument='I1', seed=seed + 6, n=500, datatype='I', amp='lin'),
@@ -73,7 +73,7 @@ def fixture(seed):
     np.random.seed(seed)
     bs, fx, mo = xl.process_beads_table(bt, it, base_dir=base, full_output=True)
     xl.add_beads_stats(bt, bs, mo)
-    _FIX[seed] = dict(base=base, it=it, bt=bt, fx=fx, bs=bs, single={})
+    _FIX[seed] = dict(base=base, it=it, bt=bt, fx=fx, bs=bs, single={}, single_row={})
     return _FIX[seed]
 
 
@@ -81,6 +81,9 @@ def sample_row(kind, sid):
     r = dict(id=sid, instrument='I1', beads='B1', file='cells_a.fcs', gate_fraction=0.5, units={'FL1-H': 'MEF', 'FL2-H': 'RFI'})
     if kind == 'ok_rfi':
         r.update(file='cells_b.fcs', units={'FL1-H': 'rfi', 'FL2-H': 'Channel'}, gate_fraction=0.85)
+    elif kind == 'ok_one':
+        # reports one channel only, of a file that has saturated events in the channel it does not report
+        r.update(units={'FL2-H': 'RFI'}, beads=None)
     elif kind == 'ok_float':
         r.update(file='cells_f.fcs', units={'FL1-H': 'a.u.'}, beads=None)
     elif kind == 'ok_float2':
@@ -148,6 +151,9 @@ def check_samples(kinds, seed, obs):
                     one = xl.process_samples_table(samples_table([kind]), fx['it'], mef_transform_fxns=fx['fx'],
                                                    beads_table=fx['bt'], base_dir=fx['base'])
                 fx['single'][kind] = fingerprint(one['S1'])
+                t1 = samples_table([kind])
+                xl.add_samples_stats(t1, one)
+                fx['single_row'][kind] = {c: t1.loc['S1', c] for c in t1.columns}
             d = fp_diff(fingerprint(got), fx['single'][kind])
             obs.claim('healthy_equal', not d, lambda: 'table %r: healthy row %s (%s) differs from its single-row run in %r' % (kinds, sid, kind, d))
         else:
@@ -174,11 +180,31 @@ def check_samples(kinds, seed, obs):
             obs.claim('notes', not (isinstance(note, str) and note.startswith('ERROR:')) and t.loc[sid, 'Number of Events'] > 0,
                       lambda: 'healthy row %s has note %r' % (sid, note))
             obs.claim('hist_skips', sid in hist_ids, lambda: 'healthy row %s has no histogram rows' % sid)
+            # its row of the output table is the row of its single-row run (notes and every result column)
+            ref = fx['single_row'].get(kind)
+            if ref is not None:
+                bad = [c for c in ref if c in t.columns and not _same_cell(t.loc[sid, c], ref[c])]
+                obs.claim('row_equal', not bad, lambda: 'table %r: output row of healthy row %s (%s) differs from its single-row run in %r: %r vs %r' % (
+                    kinds, sid, kind, bad, [t.loc[sid, c] for c in bad[:3]], [ref[c] for c in bad[:3]]))
         else:
             obs.claim('notes', isinstance(note, str) and note.startswith('ERROR:') and pd.isnull(t.loc[sid, 'Number of Events'])
                       and all(pd.isnull(t.loc[sid, c]) for c in stat_cols),
                       lambda: 'faulty row %s (%s): note %r, events %r' % (sid, kind, note, t.loc[sid, 'Number of Events']))
             obs.claim('hist_skips', sid not in hist_ids, lambda: 'faulty row %s has histogram rows' % sid)
+            obs.claim('notes', note == 'ERROR: %s' % (res[sid],),
+                      lambda: 'faulty row %s (%s): note %r is not its own error message %r' % (sid, kind, note, 'ERROR: %s' % (res[sid],)))
+
+
+def _same_cell(a, b):
+    if isinstance(a, str) or isinstance(b, str) or a is None or b is None:
+        return (a is None and b is None) or (isinstance(a, str) and isinstance(b, str) and a == b) or \
+            (not isinstance(a, str) and not isinstance(b, str) and pd.isnull(a) and pd.isnull(b))
+    try:
+        if pd.isnull(a) and pd.isnull(b):
+            return True
+        return bool(a == b)
+    except Exception:
+        return False
 
 
 def beads_table(kinds):
